@@ -23,7 +23,7 @@ type GoOp struct {
 }
 
 type Call struct {
-	Api  string `json:"api"` // RP | CA | CO | EX | TR | TG
+	Api  string `json:"api"` // RP | CA | CO | EX | TR | TG | ER
 	Src  string `json:"src,omitempty"`
 	Fn   string `json:"fn,omitempty"`
 	Obj  string `json:"obj,omitempty"`
@@ -353,6 +353,16 @@ func runHistory(line string) string {
 				} else {
 					outcome = "ok"
 				}
+			case "ER":
+				// err.Error() on an Exception whose value is an object with a JS toString: a call into the runtime
+				obj := r.Get(c.Obj)
+				ex := r.Try(func() { panic(obj) })
+				if ex == nil {
+					panic("harness: no exception for " + c.Obj)
+				}
+				e.trace, e.count = nil, 0
+				_ = ex.Error()
+				outcome = "ok"
 			default:
 				panic("harness: bad api " + c.Api)
 			}
